@@ -31,7 +31,7 @@ ASSUMPTIONS = [
     'error propagation, not for values',
     'SUMIF/SUMIFS are skipped when the installed pandas cannot run them',
 ]
-FLOORS = {'op_error_cases': 1000, 'func_error_cases': 1000,
+FLOORS = {'cached_error_cases': 100, 'and_or_range_error_cases': 300, 'op_error_cases': 1000, 'func_error_cases': 1000,
           'type_pair_cases': 500, 'aggregate_cases': 200,
           'stored_error_cases': 8, 'truth_table_cases': 50,
           'formula_spelling_cases': 1000}
@@ -560,6 +560,40 @@ def run(ctx):
                         arg_text(B, a) for a in args) + ')'
                     B.add(text, {'kind': 'expect_error', 'code': code,
                                  'key': (name, lname, code, 'formula')})
+    # ---- D2. AND / OR: an error among the elements of a range, the other
+    # elements not deciding the result (TRUE for AND, FALSE / 0 for OR) ----------
+    for name, neutral in (('AND', [True, 1.0, 2.5]), ('OR', [False, 0.0])):
+        if name not in F:
+            continue
+        for code in ERROR_CODES:
+            work += 1
+            if work % n != sh:
+                continue
+            e = ('err', code)
+            t1, t2 = neutral[0], neutral[1]
+            layouts = {
+                'range-first': [[[e], [t1], [t2]]],
+                'range-middle': [[[t1], [e], [t2]]],
+                'range-last': [[[t1], [t2], [e]]],
+                'range-2d': [[[t1, t2], [t2, e]]],
+                'row-range': [[[t1, e, t2]]],
+                'scalar-then-range': [t1, [[t2], [e]]],
+                'range-then-scalar': [[[t1], [e]], t2],
+                'two-ranges': [[[t1], [t2]], [[t1], [e]]],
+                'only-element': [[[e]]],
+            }
+            for lname, args in layouts.items():
+                text = f'={name}(' + ','.join(arg_text(B, a) for a in args) \
+                    + ')'
+                ctx.event('aggregate_cases')
+                ctx.event('and_or_range_error_cases')
+                B.add(text, {'kind': 'expect_error', 'code': code,
+                             'key': (name, lname, code, 'formula')})
+                for wrap in ('IF({},1,2)', 'NOT({})', '{}+0'):
+                    ctx.event('and_or_range_error_cases')
+                    B.add('=' + wrap.format(text[1:]),
+                          {'kind': 'expect_error', 'code': code,
+                           'key': (name, lname, code, 'formula', wrap)})
     B.flush()
 
     # ---- E. a cell whose formula yields an error stores and hands it on ----
@@ -599,6 +633,65 @@ def run(ctx):
                              f'handed on; ' + '; '.join(bad),
                              {'cells': cells, 'outs': outs, 'stored': stored},
                              monitor='stored-and-handed-on')
+
+        # ---- E1. the same from a workbook FILE as Excel saves it: every
+        # formula cell carries its cached result (an error is cached as its
+        # code, t="e"); cells are evaluated precedent first and dependants
+        # first -------------------------------------------------------------
+        import os as _os
+        from vlib import bootstrap as _bs, xlsxw as _xw
+        from xlcalculator import ModelCompiler as _MC
+        sources = [(c, c) for c in ERROR_CODES] + [
+            ('#DIV/0!', '1/0'), ('#VALUE!', '"a"*2'), ('#NUM!', '(-1)^0.5'),
+            ('#DIV/0!', '(1/0)'), ('#N/A', 'NA()'), ('#NUM!', 'SQRT(-1)'),
+            ('#VALUE!', '1+"x"')]
+        path = _os.path.join(_bs.VERIF, 'out', 'c07', 'cached.xlsx')
+        _os.makedirs(_os.path.dirname(path), exist_ok=True)
+        sb = _xw.SheetBuilder()
+        for i, (code, et) in enumerate(sources, start=1):
+            sb.put_formula('Sheet1', 1, i, '=' + et, cached=code, ctype='e')
+            sb.put_formula('Sheet1', 2, i, f'=A{i}+1', cached=code, ctype='e')
+            sb.put_formula('Sheet1', 3, i, f'=ISERROR(A{i})', cached='1',
+                           ctype='b')
+            sb.put_formula('Sheet1', 4, i, f'=SUM(A{i}:A{i},1)', cached=code,
+                           ctype='e')
+            sb.put_formula('Sheet1', 5, i, f'="<"&A{i}&">"', cached=code,
+                           ctype='e')
+        sb.write(path)
+        for order in ('precedent first', 'dependants first'):
+            try:
+                ev = Evaluator(_MC().read_and_parse_archive(path))
+            except Exception as e:  # noqa
+                ctx.fail(f'loading a workbook with cached error results '
+                         f'raised {e!r}', {'formulas': sources},
+                         monitor='stored-and-handed-on', group='cached-load')
+                break
+            for i, (code, et) in enumerate(sources, start=1):
+                cols = 'ABCDE' if order == 'precedent first' else 'EDCBA'
+                want = {'A': ('err', code), 'B': ('err', code),
+                        'C': ('bool', True), 'D': ('err', code),
+                        'E': ('err', code)}
+                bad = []
+                for c in cols:
+                    got = subject.outcome_of(
+                        lambda: ev.evaluate(f'Sheet1!{c}{i}'))
+                    ctx.event('stored_error_cases')
+                    ctx.event('cached_error_cases')
+                    if got != ('value', want[c]):
+                        bad.append(f'{c}{i} -> {got}, expected {want[c]}')
+                ctx.case(('cached-error', code, et, order))
+                if bad:
+                    ctx.fail(f'workbook file with A{i} ={et} (cached result '
+                             f'{code}), cells evaluated {order}: '
+                             + '; '.join(bad),
+                             {'formula': '=' + et, 'cached': code,
+                              'order': order, 'problems': bad},
+                             monitor='stored-and-handed-on',
+                             group=f'cached:{order}:{bad[0][:1]}')
+        try:
+            _os.remove(path)
+        except OSError:
+            pass
 
         # ---- E2. a cell changes between a value and an error -----------------
         # one Evaluator; the input is re-assigned so that the same formula
